@@ -10,7 +10,7 @@ _TRUST = [
 PROPS = {
     "C11": {
         "world": "dsim.worlds.circuit.CircuitWorld",
-        "tiers": {"quick": {"runs": 1600, "chunk": 10, "run_cap_s": 120, "wall_cap_s": 500},
+        "tiers": {"quick": {"runs": 3200, "chunk": 10, "run_cap_s": 120, "wall_cap_s": 500},
                   "thorough": {"runs": 40000, "chunk": 20, "run_cap_s": 300, "wall_cap_s": 2700}},
         "rule": "one evaluation = one simulated run: a seeded history of 10-50 operations over a pool of 2-6 live circuits "
                 "(construction, add_gate, +, *, copy, inverse, trim, reindex, split, stack, 4 passes in/out of place, "
@@ -27,7 +27,7 @@ PROPS = {
     },
     "C09": {
         "world": "dsim.worlds.circuit.CircuitWorld",
-        "tiers": {"quick": {"runs": 1600, "chunk": 10, "run_cap_s": 120, "wall_cap_s": 500},
+        "tiers": {"quick": {"runs": 3200, "chunk": 10, "run_cap_s": 120, "wall_cap_s": 500},
                   "thorough": {"runs": 40000, "chunk": 20, "run_cap_s": 300, "wall_cap_s": 2700}},
         "rule": "same world as C11 with the operation mix biased to transformations and gate-level checks; after every "
                 "transformation the unitary of the actual gate list (reference simulator) is compared, up to global phase and "
@@ -43,7 +43,7 @@ PROPS = {
     },
     "C16": {
         "world": "dsim.worlds.operator.OperatorWorld",
-        "tiers": {"quick": {"runs": 4000, "chunk": 50, "run_cap_s": 120, "wall_cap_s": 500},
+        "tiers": {"quick": {"runs": 8000, "chunk": 50, "run_cap_s": 120, "wall_cap_s": 500},
                   "thorough": {"runs": 200000, "chunk": 200, "run_cap_s": 300, "wall_cap_s": 2700}},
         "rule": "one evaluation = one simulated run: a chain of 8-60 operations (+, -, *, scalar forms on either side, in-place "
                 "forms, unary minus, ==, array-form product/collapse/commutation) over a pool of <= 8 shared operator objects "
@@ -60,7 +60,7 @@ PROPS = {
     },
     "C18": {
         "world": "dsim.worlds.histogram.HistogramWorld",
-        "tiers": {"quick": {"runs": 3000, "chunk": 40, "run_cap_s": 120, "wall_cap_s": 500},
+        "tiers": {"quick": {"runs": 5000, "chunk": 40, "run_cap_s": 120, "wall_cap_s": 500},
                   "thorough": {"runs": 100000, "chunk": 100, "run_cap_s": 300, "wall_cap_s": 2700}},
         "rule": "one evaluation = one simulated run: 8-50 operations over a pool of <= 6 histograms (construct in both bit orders "
                 "and from probabilities, +, +=, aggregate 1-4 incl. the same object twice, remove_qubit_indices, post_select, "
@@ -81,7 +81,7 @@ PROPS = {
     },
     "C10": {
         "world": "dsim.worlds.midcircuit.MidCircuitWorld",
-        "tiers": {"quick": {"runs": 480, "chunk": 4, "run_cap_s": 900, "wall_cap_s": 800},
+        "tiers": {"quick": {"runs": 960, "chunk": 4, "run_cap_s": 900, "wall_cap_s": 800},
                   "thorough": {"runs": 12000, "chunk": 8, "run_cap_s": 1500, "wall_cap_s": 2700}},
         "rule": "one evaluation = one simulated run: 3-16 programs (1-5 qubits, 1-6 MEASURE/CMEASURE gates, dictionary / function / "
                 "class control, nesting depth <= 3, random initial states) executed on two long-lived backend objects: (exact) "
@@ -101,7 +101,7 @@ PROPS = {
     },
     "C01": {
         "world": "dsim.worlds.device.GateSemanticsWorld",
-        "tiers": {"quick": {"runs": 640, "chunk": 4, "run_cap_s": 900, "wall_cap_s": 800},
+        "tiers": {"quick": {"runs": 1600, "chunk": 4, "run_cap_s": 900, "wall_cap_s": 800},
                   "thorough": {"runs": 16000, "chunk": 8, "run_cap_s": 1500, "wall_cap_s": 2700}},
         "rule": "one evaluation = one simulated run: 6-30 calls on four long-lived backend objects (cirq exact, cirq with shots, sympy, "
                 "shot-only stub): exact simulation of random circuits over the full gate set (multi-controlled parameterised gates, idle "
@@ -136,7 +136,7 @@ PROPS = {
     },
     "C20": {
         "world": "dsim.worlds.phase.PhaseWorld",
-        "tiers": {"quick": {"runs": 480, "chunk": 4, "run_cap_s": 900, "wall_cap_s": 800},
+        "tiers": {"quick": {"runs": 1200, "chunk": 4, "run_cap_s": 900, "wall_cap_s": 800},
                   "thorough": {"runs": 12000, "chunk": 8, "run_cap_s": 1500, "wall_cap_s": 2700}},
         "rule": "one evaluation = one simulated run of 4-18 steps: iterative QPE (register 1-6, 1-3 shots, two simulate() calls per "
                 "solver object) on eigenstates with exactly representable eigenphases (diagonal and non-diagonal commuting "
@@ -154,7 +154,7 @@ PROPS = {
     },
     "C07": {
         "world": "dsim.worlds.ansatz.AnsatzWorld",
-        "tiers": {"quick": {"runs": 480, "chunk": 3, "run_cap_s": 900, "wall_cap_s": 1000},
+        "tiers": {"quick": {"runs": 800, "chunk": 3, "run_cap_s": 900, "wall_cap_s": 1000},
                   "thorough": {"runs": 8000, "chunk": 6, "run_cap_s": 1500, "wall_cap_s": 2700}},
         "rule": "one evaluation = one simulated run: one long-lived ansatz object (class, molecule, encoding, ordering and options drawn "
                 "per run from the catalogue of all built-in ansaetze) driven through 4-14 steps: build_circuit (default / keyword incl. "
@@ -174,7 +174,7 @@ PROPS = {
     },
     "C08": {
         "world": "dsim.worlds.solver.SolverWorld",
-        "tiers": {"quick": {"runs": 320, "chunk": 2, "run_cap_s": 900, "wall_cap_s": 1000},
+        "tiers": {"quick": {"runs": 640, "chunk": 2, "run_cap_s": 900, "wall_cap_s": 1000},
                   "thorough": {"runs": 6000, "chunk": 4, "run_cap_s": 1500, "wall_cap_s": 2700}},
         "rule": "one evaluation = one simulated run: one VQESolver (ansatz, molecule or qubit Hamiltonian, encoding, ordering, ref_state / "
                 "projective / deflation / penalty options, exact or 2000 shots drawn per run) driven through 4-15 steps of "
